@@ -327,11 +327,20 @@ theorem cookie_some (scfg : SpecCfg) (s1 : SpecSt) (q : Req) (o : Obs) (live : L
     (token : Bytes) (hck : o.ck = some token) (hne : token ≠ [])
     (hiss : s1.issued.contains token = true)
     (hkeep : ((token = q.ck && s1.liveAt token) || o.gens.contains token) = true)
+    (hsu : scfg.single = true → isSafe q.method = false → o.gens.contains token = true)
     (hprobe : isSafe q.method = true → o.fired = false → probeHas o token (s1.now + scfg.idle) = true) :
     cookieClause scfg s1 q o live =
       .ok (put live token { deadline := s1.now + scfg.idle, holder := o.sc }) := by
   unfold cookieClause
-  simp only [hck, hne, if_false, hiss, Bool.not_true, Bool.false_eq_true, hkeep]
+  have hsu' : (scfg.single && !isSafe q.method && decide (token = q.ck) && !o.gens.contains token) = false := by
+    cases h1 : scfg.single
+    · simp
+    · cases h2 : isSafe q.method
+      · have := hsu h1 h2
+        simp only [List.contains_eq_mem, decide_eq_true_eq] at this
+        simp [this]
+      · simp
+  simp only [hck, hne, if_false, hiss, Bool.not_true, Bool.false_eq_true, hkeep, hsu']
   by_cases h1 : isSafe q.method = true
   · by_cases h2 : o.fired = false
     · simp [h1, h2, hprobe h1 h2]
